@@ -53,6 +53,7 @@ class RepoCode:
                           RadiRouter=RadiRouter, LINES=_HTTP_STATUS_LINES, error_render=error_render,
                           cookie_encode=cookie_encode, touni=touni)
             cls._m['STATE'] = discover_module_state()
+            cls._m['LINES0'] = dict(_HTTP_STATUS_LINES)      # as imported, before any request ran
         return cls._m
 
 
@@ -131,7 +132,9 @@ def module_snapshot():
 
 
 def status_line(code):
-    return RepoCode.get()['LINES'].get(code) or '%d Unknown' % code
+    """the status line of a numeric status as the freshly imported package spells it (a copy taken at
+    import: whatever a run does to the live table does not reach the expectation)"""
+    return RepoCode.get()['LINES0'].get(code) or '%d Unknown' % code
 
 
 # --------------------------------------------------------------------------------------
@@ -211,6 +214,41 @@ def render_resp(status, headers, body):
 # requests
 
 SHOWN = '\x00'      # marks a model value that is already in `show` form
+
+
+def multi_pairs(s, sep='&'):
+    """key -> value, or list of values when the key repeats (what FormsDict holds)"""
+    out = {}
+    for part in s.split(sep):
+        if '=' in part:
+            k, v = part.split('=', 1)
+            if k in out:
+                out[k] = (out[k] if isinstance(out[k], list) else [out[k]]) + [v]
+            else:
+                out[k] = v
+    return out
+
+
+def dump_of(d):
+    """canonical text of a mapping an accessor hands out"""
+    return show({k: (v if isinstance(v, (str, list, int, float, type(None))) else '<%s>' % type(v).__name__)
+                 for k, v in dict(d).items()})
+
+
+def expected_dumps(req):
+    """what every accessor of the request must show, from the request's own data"""
+    env = wsgi_env(req)
+    q = multi_pairs(req.get('qs', ''))
+    f = multi_pairs(req.get('body', '')) if (req.get('ctype') or '').startswith('application/x-www-form-urlencoded') \
+        and not req.get('parts') else {}
+    hd = {}
+    for k, v in env.items():
+        if k.startswith('HTTP_'):
+            hd[k[5:].replace('_', '-').title()] = v
+        elif k in ('CONTENT_TYPE', 'CONTENT_LENGTH'):
+            hd[k.replace('_', '-').title()] = v
+    return dict(query=q, cookies=simple_pairs(req.get('cookie') or '', ';'), headers=hd, forms=f, post=f, files={},
+                params=dict(q, **f), urlargs=dict(req.get('kwargs') or {}))
 
 
 def simple_pairs(s, sep):
@@ -353,6 +391,10 @@ def model_env(req):
     for name, pl in (req.get('signed') or {}).items():
         d['#sc:' + name] = SHOWN + show(pl)
     d['#kwargs'] = kwargs_text(req.get('kwargs') or {})
+    d['#rule'] = req.get('rule') or ('/r%d' % req['rid'])
+    if any(op[0] == 'dump' for op in req.get('ops') or []):
+        for what, val in expected_dumps(req).items():
+            d['#dump:' + what] = dump_of(val)
     d['#body'] = payload(req)
     d['#url'] = 'http://h' + urllib.parse.quote(req_path(req)) + ('?' + qs if qs else '')
     return d
@@ -401,8 +443,14 @@ def enc_dict(d):
 
 def enc_op(op, cfgs=None):
     k = op[0]
-    if k in ('path', 'method', 'body', 'url', 'rdstatus', 'copy', 'kwargs', 'urlargs'):
+    if k in ('path', 'method', 'body', 'url', 'rdstatus', 'copy', 'kwargs', 'urlargs', 'whoami'):
         return [k]
+    if k in ('dump', 'mutate', 'extget'):
+        return [k, hs(op[1])]
+    if k in ('envset', 'extset'):
+        return [k, hs(op[1]), hs(op[2])]
+    if k == 'statusline':
+        return ['status', op[1].split()[0], hs(op[1])]
     if k == 'scookie':
         return [k, hs(op[1])]
     if k == 'scookie_edit':
@@ -541,6 +589,7 @@ class World:
         self.multi = is_multi(case) if multi is None else multi
         self.reg = sched.Registry(multi=self.multi)
         self.apps = {}
+        self.handed = []
         self.tl = threading.local()          # the harness' own per-thread observation list
         self.obs = {}
         self.reqs = list(case_reqs(case))
@@ -588,16 +637,32 @@ class World:
     def make_handler(self, app_id, req):
         world = self
 
+        rule = req.get('rule') or ('/r%d' % req['rid'])
+
         def handler(**kw):
             world.tl.kw = kw
-            return h_script(world, app_id, req)
+            world.tl.rule = rule            # which handler object the router picked
+            cur = getattr(world.tl, 'cur', None)
+            # several requests may share one route: the statements are those of the request being served
+            mine = cur[-1] if cur and cur[-1]['app'] == app_id and (cur[-1].get('rule') or '') == (req.get('rule') or '') \
+                and cur[-1].get('rule') else req
+            return h_script(world, app_id, mine)
         return handler
 
     def serve(self, req):
         app = self.apps[req['app']]
         env = wsgi_env(req)
         got = []
-        body = app(env, lambda st, hd, exc=None: got.append((st, list(hd))))
+        if not hasattr(self.tl, 'cur'):
+            self.tl.cur = []
+        self.tl.cur.append(req)
+        self.nserve = getattr(self, 'nserve', 0) + 1
+        self.tl.sid = (self.tl.sid if hasattr(self.tl, 'sid') else []) + [self.nserve]
+        try:
+            body = app(env, lambda st, hd, exc=None: got.append((st, list(hd))))
+        finally:
+            self.tl.cur.pop()
+            self.tl.sid.pop()
         data = b''.join(body)
         close = getattr(body, 'close', None)
         if close:
@@ -618,6 +683,21 @@ class World:
                 self.tl.obs.append((it[1], 'i:' + self.idle_view(it[1])))
             else:
                 self.construct(it[1])
+
+    def hand(self, what, obj):
+        """remember (alive) an object the framework handed to application code, and for which serve"""
+        if obj is not None and not isinstance(obj, (str, bytes, int, float, bool)):
+            self.handed.append((tuple(getattr(self.tl, 'sid', None) or [0]), what, obj))
+
+    def shared_handouts(self):
+        """objects handed out to two different serves that are one and the same object"""
+        out = []
+        seen = {}
+        for sid, what, obj in self.handed:
+            first = seen.setdefault(id(obj), (sid, what))
+            if first[0] != sid:
+                out.append((what, first[1]))
+        return sorted(set(out))
 
     def idle_view(self, app_id):
         """sorted items of the environ of the application's idle request; a request object shows as the
@@ -656,6 +736,10 @@ class World:
         return answer(self.obs, sorted(self.case['threads']))
 
 
+ACCESSOR = dict(query='query', cookies='cookies', headers='headers', forms='forms', post='POST', files='files',
+                params='params', urlargs='url_args')
+
+
 def app_objects(world, app_id):
     app = world.apps[app_id]
     if app_id == 0:
@@ -691,9 +775,34 @@ def run_ops(world, app_id, ops, copies):
         elif k == 'url':
             obs.append((app_id, 'r:' + show(rq.url)))
         elif k == 'kwargs':
+            world.hand('kwargs', getattr(world.tl, 'kw', None))
             obs.append((app_id, 'r:' + show(kwargs_text(getattr(world.tl, 'kw', None) or {}))))
         elif k == 'urlargs':
+            world.hand('urlargs', rq.url_args)
             obs.append((app_id, 'r:' + show(kwargs_text(rq.url_args))))
+        elif k == 'dump':
+            o = getattr(rq, ACCESSOR[op[1]])
+            world.hand(op[1], o)
+            obs.append((app_id, 'r:' + show(dump_of(o))))
+        elif k == 'mutate':
+            o = getattr(rq, ACCESSOR[op[1]])
+            world.hand(op[1], o)
+            for key in list(o):
+                if isinstance(o[key], list):
+                    o[key].append('m')            # a list value grows in place
+            for key in list(o)[:1]:
+                o.pop(key)                        # something disappears
+            o['inj'] = 'm'                        # something is injected
+        elif k == 'envset':
+            rq.environ[op[1]] = op[2]
+        elif k == 'extset':
+            setattr(rq, op[1], op[2])
+        elif k == 'extget':
+            obs.append((app_id, 'r:' + show(getattr(rq, op[1], None))))
+        elif k == 'whoami':
+            obs.append((app_id, 'r:' + show(getattr(world.tl, 'rule', None))))
+        elif k == 'statusline':
+            rs.status = op[1]
         elif k == 'scookie':
             obs.append((app_id, 'r:' + show(SHOWN + show(rq.get_cookie(op[1], secret=SECRET)))))
         elif k == 'scookie_edit':
